@@ -178,6 +178,21 @@ def dstep (env : Env) (N : Nat) (pool : DPool) : LOp → Outcome DPool
   | .rescale d k a => dop2 pool d a (fun cd ca => dRescaleInto env N cd k ca)
   | .rescaleAssign d k => dop1 pool d (fun cd => dRescaleAssign env N cd k)
 
+/-- the pool a call leaves behind when it returns `Err`: `ckks_add_into` / `ckks_sub_into` run their data path
+before the budget check, so the destination holds the un-normalised aligned sum under its old metadata; every
+other operation of the fragment checks first (docs/fixes/08) or cannot fail -/
+def dstepErrPool (env : Env) (N : Nat) (pool : DPool) : LOp → DPool
+  | .add sub d a b =>
+    match pool[d]?, pool[a]?, pool[b]? with
+    | some cd, some ca, some cb =>
+      if d = a ∨ d = b then pool
+      else
+        match addIntoData env N sub cd ca cb with
+        | .ok g1 => pool.set d ⟨g1, cd.md⟩
+        | _ => pool
+    | _, _, _ => pool
+  | _ => pool
+
 /-- a straight-line program, stopping at the first call that is not `Ok` -/
 def drun (env : Env) (N : Nat) : DPool → List LOp → Outcome DPool
   | p, [] => .ok p
